@@ -25,12 +25,12 @@ RULE = ("cell = (measure kind, factor kind, op in {multiply, *, hadamard, produc
         "non-trivial: R1*R2 > 1 or D > 1; each evaluation compares evaluate_ln of the result at 6 "
         "points (incl. far and zero) with ln u_i(x) + ln f_j(x) from the generator's parameters")
 
-LAYOUTS_Q = [(1, 1), (1, 3), (3, 1), (2, 3), (3, 3)]
+LAYOUTS_Q = [(1, 1), (1, 3), (3, 1), (2, 3), (3, 3), (5, 2)]
 LAYOUTS_T = LAYOUTS_Q + [(1, 6), (5, 1), (4, 2), (6, 6), (2, 2)]
 
 
 def cells(tier, seed):
-    Ds = (1, 2, 3) if tier == "quick" else (1, 2, 3, 4, 5, 6)
+    Ds = (1, 2, 3, 5) if tier == "quick" else (1, 2, 3, 4, 5, 6)
     lay = LAYOUTS_Q if tier == "quick" else LAYOUTS_T
     reps = 1 if tier == "quick" else 3
     out = []
